@@ -1,0 +1,136 @@
+//go:build verif
+
+// Verification hooks (build tag "verif"). Thin exported wrappers over unexported
+// state and entry points; no logic of their own. Not compiled in normal builds.
+
+package sugardb
+
+import (
+	"context"
+	"net"
+
+	"github.com/echovault/sugardb/internal"
+	"github.com/echovault/sugardb/internal/clock"
+	"github.com/echovault/sugardb/internal/modules/acl"
+	"github.com/echovault/sugardb/internal/modules/pubsub"
+)
+
+// VerifWithClock is a NewSugarDB option that injects the server clock.
+func VerifWithClock(c clock.Clock) func(sugarDB *SugarDB) {
+	return func(sugarDB *SugarDB) {
+		sugarDB.clock = c
+	}
+}
+
+// VerifHandle is handleCommand.
+func (server *SugarDB) VerifHandle(ctx context.Context, message []byte, conn *net.Conn, replay bool, embedded bool) ([]byte, error) {
+	return server.handleCommand(ctx, message, conn, replay, embedded)
+}
+
+// VerifRegisterConn registers conn the way handleConnection does on accept,
+// without starting a read loop.
+func (server *SugarDB) VerifRegisterConn(conn *net.Conn) {
+	if server.acl != nil {
+		server.acl.RegisterConnection(conn)
+	}
+	cid := server.connId.Add(1)
+	server.connInfo.mut.Lock()
+	server.connInfo.tcpClients[conn] = internal.ConnectionInfo{
+		Id:       cid,
+		Name:     "",
+		Protocol: 2,
+		Database: 0,
+	}
+	server.connInfo.mut.Unlock()
+}
+
+// VerifServe is handleConnection.
+func (server *SugarDB) VerifServe(conn net.Conn) {
+	server.handleConnection(conn)
+}
+
+// VerifRaw is a shallow copy of the server's keyspace bookkeeping. Values are
+// the stored references; the caller must not mutate them.
+type VerifRaw struct {
+	Store    map[int]map[string]internal.KeyData
+	Volatile map[int][]string
+	MemUsed  int64
+	Conns    map[*net.Conn]internal.ConnectionInfo
+	Embedded internal.ConnectionInfo
+	// Flags
+	StateCopyInProgress     bool
+	StateMutationInProgress bool
+	LatestSnapshotMs        int64
+}
+
+// VerifSnapshot copies the maps under the store lock.
+func (server *SugarDB) VerifSnapshot() VerifRaw {
+	server.storeLock.RLock()
+	raw := VerifRaw{
+		Store:    make(map[int]map[string]internal.KeyData, len(server.store)),
+		Volatile: make(map[int][]string),
+		MemUsed:  server.memUsed,
+	}
+	for db, m := range server.store {
+		c := make(map[string]internal.KeyData, len(m))
+		for k, v := range m {
+			c[k] = v
+		}
+		raw.Store[db] = c
+	}
+	server.keysWithExpiry.rwMutex.RLock()
+	for db, ks := range server.keysWithExpiry.keys {
+		raw.Volatile[db] = append([]string{}, ks...)
+	}
+	server.keysWithExpiry.rwMutex.RUnlock()
+	server.storeLock.RUnlock()
+
+	server.connInfo.mut.RLock()
+	raw.Conns = make(map[*net.Conn]internal.ConnectionInfo, len(server.connInfo.tcpClients))
+	for c, i := range server.connInfo.tcpClients {
+		raw.Conns[c] = i
+	}
+	raw.Embedded = server.connInfo.embedded
+	server.connInfo.mut.RUnlock()
+
+	raw.StateCopyInProgress = server.stateCopyInProgress.Load()
+	raw.StateMutationInProgress = server.stateMutationInProgress.Load()
+	raw.LatestSnapshotMs = server.latestSnapshotMilliseconds.Load()
+	return raw
+}
+
+// VerifSamplerTick is one run of the background TTL sampler for a database.
+func (server *SugarDB) VerifSamplerTick(database int) error {
+	ctx := context.WithValue(context.Background(), "Database", database)
+	return server.evictKeysWithExpiredTTL(ctx)
+}
+
+// VerifTakeSnapshotSync runs the standalone snapshot engine synchronously.
+func (server *SugarDB) VerifTakeSnapshotSync() error {
+	return server.snapshotEngine.TakeSnapshot()
+}
+
+// VerifRewriteAOF is rewriteAOF.
+func (server *SugarDB) VerifRewriteAOF() error {
+	return server.rewriteAOF()
+}
+
+// VerifACL returns the ACL engine.
+func (server *SugarDB) VerifACL() *acl.ACL {
+	return server.acl
+}
+
+// VerifPubSub returns the pub/sub engine.
+func (server *SugarDB) VerifPubSub() *pubsub.PubSub {
+	return server.pubSub
+}
+
+// VerifCommands returns the loaded command table.
+func (server *SugarDB) VerifCommands() []internal.Command {
+	return server.getCommands()
+}
+
+// VerifIsInCluster is isInCluster.
+func (server *SugarDB) VerifIsInCluster() bool {
+	return server.isInCluster()
+}
